@@ -1,6 +1,11 @@
 """Run jobs in forked children so that every job starts from the pristine
-module state of the parent (template) process."""
-import json
+module state of a template process.
+
+A pool of lieutenant processes is forked EARLY (while the parent is still
+small); each lieutenant runs the template initialiser (imports psutil under
+the shim) and then serves jobs: for every job it forks a child, the child runs
+fn(item) and pipes the pickled result back.  Forking from the small lieutenant
+instead of the (graph-laden) parent keeps fork() cheap."""
 import os
 import pickle
 import signal
@@ -8,21 +13,49 @@ import struct
 import sys
 import traceback
 
+_POOL = None
+
+
+def _send(fd, obj):
+    data = pickle.dumps(obj, protocol=pickle.HIGHEST_PROTOCOL)
+    os.write(fd, struct.pack("<Q", len(data)))
+    view = memoryview(data)
+    while view:
+        n = os.write(fd, view[:1 << 20])
+        view = view[n:]
+
+
+def _recv(fd):
+    hdr = b""
+    while len(hdr) < 8:
+        b = os.read(fd, 8 - len(hdr))
+        if not b:
+            return None
+        hdr += b
+    n = struct.unpack("<Q", hdr)[0]
+    chunks = []
+    while n:
+        b = os.read(fd, min(n, 1 << 20))
+        if not b:
+            return None
+        chunks.append(b)
+        n -= len(b)
+    return pickle.loads(b"".join(chunks))
+
 
 def _run_child(fn, item, wfd):
     try:
         res = ("ok", fn(item))
     except BaseException:  # noqa: BLE001
         res = ("exc", traceback.format_exc())
-    data = pickle.dumps(res)
-    with os.fdopen(wfd, "wb") as f:
-        f.write(data)
-    os._exit(0)
+    try:
+        _send(wfd, res)
+    finally:
+        os._exit(0)
 
 
 def fork_call(fn, item, timeout=None):
-    """Run fn(item) in a forked child; return ('ok', result) | ('exc', tb) |
-    ('died', status)."""
+    """Run fn(item) in a forked child of the *current* process."""
     rfd, wfd = os.pipe()
     sys.stdout.flush()
     sys.stderr.flush()
@@ -33,67 +66,113 @@ def fork_call(fn, item, timeout=None):
             signal.alarm(int(timeout))
         _run_child(fn, item, wfd)
     os.close(wfd)
-    chunks = []
-    with os.fdopen(rfd, "rb") as f:
-        while True:
-            b = f.read(1 << 16)
-            if not b:
-                break
-            chunks.append(b)
+    res = _recv(rfd)
+    os.close(rfd)
     _, status = os.waitpid(pid, 0)
-    data = b"".join(chunks)
-    if not data:
+    if res is None:
         return ("died", status)
-    return pickle.loads(data)
+    return res
+
+
+class Pool:
+    def __init__(self, nproc=16, init=None):
+        self.lts = []
+        sys.stdout.flush()
+        sys.stderr.flush()
+        for _ in range(nproc):
+            p2c_r, p2c_w = os.pipe()
+            c2p_r, c2p_w = os.pipe()
+            pid = os.fork()
+            if pid == 0:
+                os.close(p2c_w)
+                os.close(c2p_r)
+                for (_, w, r) in self.lts:
+                    os.close(w)
+                    os.close(r)
+                try:
+                    if init:
+                        init()
+                    while True:
+                        msg = _recv(p2c_r)
+                        if msg is None:
+                            break
+                        fn, items, per_item_fork, timeout = msg
+                        out = []
+                        for it in items:
+                            if per_item_fork:
+                                out.append(fork_call(fn, it, timeout))
+                            else:
+                                try:
+                                    out.append(("ok", fn(it)))
+                                except BaseException:  # noqa: BLE001
+                                    out.append(("exc", traceback.format_exc()))
+                        _send(c2p_w, out)
+                except BaseException:  # noqa: BLE001
+                    traceback.print_exc()
+                finally:
+                    os._exit(0)
+            os.close(p2c_r)
+            os.close(c2p_w)
+            self.lts.append((pid, p2c_w, c2p_r))
+
+    def map(self, fn, items, per_item_fork=True, timeout=120):
+        items = list(items)
+        n = len(self.lts)
+        shares = [list(range(i, len(items), n)) for i in range(n)]
+        results = [None] * len(items)
+        # send in a helper thread-free way: messages are small relative to the
+        # pipe only if chunked; use a forked sender to avoid deadlock
+        import threading
+
+        def sender():
+            for (pid, w, r), share in zip(self.lts, shares):
+                if share:
+                    _send(w, (fn, [items[i] for i in share], per_item_fork, timeout))
+        th = threading.Thread(target=sender)
+        th.start()
+        for (pid, w, r), share in zip(self.lts, shares):
+            if not share:
+                continue
+            out = _recv(r)
+            if out is None:
+                for i in share:
+                    results[i] = ("died", -1)
+                continue
+            for i, res in zip(share, out):
+                results[i] = res
+        th.join()
+        return results
+
+    def close(self):
+        for pid, w, r in self.lts:
+            try:
+                os.close(w)
+                os.close(r)
+            except OSError:
+                pass
+        for pid, w, r in self.lts:
+            try:
+                os.waitpid(pid, 0)
+            except OSError:
+                pass
+        self.lts = []
+
+
+def start(nproc=16, init=None):
+    """Fork the lieutenants now (call this before loading large data)."""
+    global _POOL
+    if _POOL is None:
+        _POOL = Pool(nproc, init)
+    return _POOL
 
 
 def map_fork(fn, items, nproc=16, per_item_fork=True, timeout=120):
-    """Apply fn to every item; each item runs in its own forked grandchild of
-    one of *nproc* lieutenant processes.  Returns results in order."""
-    items = list(items)
-    if not items:
-        return []
-    nproc = max(1, min(nproc, len(items)))
-    shares = [list(range(i, len(items), nproc)) for i in range(nproc)]
-    pipes = []
-    sys.stdout.flush()
-    sys.stderr.flush()
-    for share in shares:
-        rfd, wfd = os.pipe()
-        pid = os.fork()
-        if pid == 0:
-            os.close(rfd)
-            for r, _, _ in pipes:
-                os.close(r)
-            out = []
-            for idx in share:
-                if per_item_fork:
-                    out.append((idx, fork_call(fn, items[idx], timeout)))
-                else:
-                    try:
-                        out.append((idx, ("ok", fn(items[idx]))))
-                    except BaseException:  # noqa: BLE001
-                        out.append((idx, ("exc", traceback.format_exc())))
-            with os.fdopen(wfd, "wb") as f:
-                f.write(pickle.dumps(out))
-            os._exit(0)
-        os.close(wfd)
-        pipes.append((rfd, pid, share))
-    results = [None] * len(items)
-    for rfd, pid, share in pipes:
-        chunks = []
-        with os.fdopen(rfd, "rb") as f:
-            while True:
-                b = f.read(1 << 16)
-                if not b:
-                    break
-                chunks.append(b)
-        os.waitpid(pid, 0)
-        data = b"".join(chunks)
-        if not data:
-            for idx in share:
-                results[idx] = ("died", -1)
-            continue
-        for idx, res in pickle.loads(data):
-            results[idx] = res
-    return results
+    pool = start(nproc)
+    return pool.map(fn, items, per_item_fork, timeout)
+
+
+def shutdown():
+    global _POOL
+    if _POOL is not None:
+        _POOL.close()
+        _POOL = None
